@@ -56,6 +56,10 @@ def main(ctx):
         ev.evaluations += 1
         ev.extra["glyph_location_evaluations"] = ev.extra.get("glyph_location_evaluations", 0) + \
             sum(len(g["at"]) for g in rec["glyphs"] if g["kind"] != "skip")
+        notes["tuples_with_deltas_left_to_iup"] = notes.get("tuples_with_deltas_left_to_iup", 0) + \
+            sum(g.get("nondense", 0) for g in rec["glyphs"] if g["kind"] in ("line", "quad", "cubic"))
+        notes["tuples_of_simple_glyphs"] = notes.get("tuples_of_simple_glyphs", 0) + \
+            sum(len(g["tuples"]) for g in rec["glyphs"] if g["kind"] in ("line", "quad", "cubic"))
         ties = sum(max(0, g.get("ties", 0)) for g in c["glyphs"])
         sparse = any(len(g["srcs"]) != len(c["masters"]) or any(s["m"] == 0 for s in g["srcs"]) for g in c["glyphs"])
         if ties > 0 or sparse:
